@@ -105,18 +105,18 @@ class Hull:
         qy = (np.asarray(qy, dtype="float64").ravel() - self.y0) / self.sy
         return ref.hull_signed_distances(list(zip(self.vx, self.vy)), qx, qy)
 
-    def margin(self, qx, qy, extra=0.0):
+    def margin(self, qx, qy, extra=0.0, eps=EPS):
         """Either-way band: 1e-9 hull diameters plus the round-off of evaluating distances at these magnitudes."""
         qx = np.asarray(qx, dtype="float64")
         qy = np.asarray(qy, dtype="float64")
         mag = max(np.max(np.abs(self.x)) / self.sx, np.max(np.abs(self.y)) / self.sy,
                   (np.max(np.abs(qx)) / self.sx) if qx.size else 0.0, (np.max(np.abs(qy)) / self.sy) if qy.size else 0.0)
-        return MARGIN * self.diameter + 16 * EPS * mag + extra
+        return MARGIN * self.diameter + 16 * eps * mag + extra
 
-    def classify(self, qx, qy, extra=0.0):
+    def classify(self, qx, qy, extra=0.0, eps=EPS):
         """(must_be_inside, must_be_outside, either, depth, margin) boolean arrays over the raveled queries."""
         depth = self.depth(qx, qy)
-        margin = self.margin(qx, qy, extra)
+        margin = self.margin(qx, qy, extra, eps)
         inside = depth > margin
         outside = depth < -margin
         return inside, outside, ~(inside | outside), depth, margin
